@@ -577,9 +577,9 @@ def run(ctx):
         tail = [c for c in cases if c[0].startswith("seq3")]
         ctx.rng.shuffle(tail)
         cases = head + tail[:600]
-    for _ in range(ctx.n(2500, 60000)):
+    for _ in range(ctx.n(2500, 15000)):
         cases.append(("random", random_tree(ctx.rng, tabs, False)))
-    for _ in range(ctx.n(1500, 40000)):
+    for _ in range(ctx.n(1500, 10000)):
         cases.append(("malformed", random_tree(ctx.rng, tabs, True)))
     seen, coq_cases, infos = set(), [], []
     for kind, tree in cases:
@@ -677,7 +677,7 @@ META = {
                   "child; refutation theorems for the unrepaired variant.  'Every run text once, in source order' is NOT a theorem yet: "
                   "it is checked by the oracle on the implementation output (ordered-subsequence modulo whitespace/brackets) "
                   "for every schema-shaped generated tree.  The model is tied to the code by G-dumped tables "
-                  "and by running model and implementation on ~10k (quick) / ~100k (thorough) parsed trees.",
+                  "and by running model and implementation on ~7.6k (quick) / ~30k (thorough) parsed trees.",
     "level_note": "Trusted: Coq kernel+VM; the G-dump printer and the ast extraction of the local dict literals; the "
                   "hand-written model (validated differentially, exact strings); ElementTree parsing/find semantics and "
                   "str.isspace are oracles; the DOCX/PPTX call sites are tested on generated documents only.",
